@@ -22,6 +22,8 @@ pub enum LexError {
     IgnoredWithoutWarning,
     UnexpectedToken(Box<Token>),
     UnexpectedEOF,
+    /// The file ended in the middle of a statement (the token holds what was read of it)
+    IncompleteStatement(Box<Token>),
     NeedTwoNodes(Box<ParserNode>, Box<ParserNode>),
     UnexpectedError(Box<Token>),
     UnknownDirective(Box<Token>),
@@ -40,6 +42,7 @@ pub enum ParseError {
     Unsupported(Box<Token>),
     UnexpectedToken(Box<Token>),
     UnexpectedError(Box<Token>),
+    IncompleteStatement(Box<Token>),
     UnknownDirective(Box<Token>),
     CyclicDependency(Box<Token>),
     FileNotFound(With<String>),
@@ -81,6 +84,7 @@ impl Display for ParseError {
             ParseError::Unsupported(_) => write!(f, "Unsupported operation"),
             ParseError::UnexpectedToken(_) => write!(f, "Unexpected token"),
             ParseError::UnexpectedError(_) => write!(f, "Unexpected error"),
+            ParseError::IncompleteStatement(_) => write!(f, "Unexpected end of file"),
             ParseError::UnknownDirective(_) => write!(f, "Unknown directive"),
             ParseError::CyclicDependency(_) => write!(f, "Cyclic dependency"),
             ParseError::FileNotFound(file) => write!(f, "File not found: {file}"),
@@ -127,6 +131,9 @@ impl DiagnosticMessage for ParseError {
             ParseError::UnexpectedError(_) => {
                 "Unexpected error. Please file a bug preport.".to_string()
             }
+            ParseError::IncompleteStatement(_) => "Unexpected end of file.\n\n\
+            The file ends in the middle of this statement."
+                .to_string(),
             ParseError::UnknownDirective(token) => format!("Unknown directive {0}\n\n\
                 This directive is not recognized by the program. Please file a bug report or ignore this error.
             ", token.token_type()),
@@ -176,6 +183,7 @@ impl DiagnosticLocation for ParseError {
             | ParseError::Unsupported(info)
             | ParseError::UnexpectedToken(info)
             | ParseError::UnexpectedError(info)
+            | ParseError::IncompleteStatement(info)
             | ParseError::UnknownDirective(info)
             | ParseError::InvalidString(info, _)
             | ParseError::CyclicDependency(info) => info.raw_text(),
@@ -189,6 +197,7 @@ impl DiagnosticLocation for ParseError {
             | ParseError::Unsupported(info)
             | ParseError::UnexpectedToken(info)
             | ParseError::UnexpectedError(info)
+            | ParseError::IncompleteStatement(info)
             | ParseError::UnknownDirective(info)
             | ParseError::InvalidString(info, _)
             | ParseError::CyclicDependency(info) => info.file(),
@@ -202,6 +211,7 @@ impl DiagnosticLocation for ParseError {
             | ParseError::Unsupported(info)
             | ParseError::UnexpectedToken(info)
             | ParseError::UnexpectedError(info)
+            | ParseError::IncompleteStatement(info)
             | ParseError::UnknownDirective(info)
             | ParseError::InvalidString(info, _)
             | ParseError::CyclicDependency(info) => info.range(),
@@ -217,6 +227,7 @@ impl From<&ParseError> for SeverityLevel {
             | ParseError::Unsupported(_)
             | ParseError::UnexpectedToken(_)
             | ParseError::UnexpectedError(_)
+            | ParseError::IncompleteStatement(_)
             | ParseError::UnknownDirective(_)
             | ParseError::CyclicDependency(_)
             | ParseError::FileNotFound(_)
